@@ -9,13 +9,13 @@ import (
 type effect int
 
 const (
-	effPure      effect = iota // lexical or constant: no access to the tree
-	effRead                    // reads the tree, never writes it
-	effHandle                  // changes only the state of the handle itself (offset, cursor, open/closed)
-	effView                    // changes only per-object view state (cwd, umask, current user, identity manager)
-	effOpen                    // OpenFile: effect depends on the flag argument
-	effSub                     // Sub: returns a new view on the same tree; itself read-only
-	effMutate                  // may change tree, contents, modes, owners or modification times
+	effPure   effect = iota // lexical or constant: no access to the tree
+	effRead                 // reads the tree, never writes it
+	effHandle               // changes only the state of the handle itself (offset, cursor, open/closed)
+	effView                 // changes only per-object view state (cwd, umask, current user, identity manager)
+	effOpen                 // OpenFile: effect depends on the flag argument
+	effSub                  // Sub: returns a new view on the same tree; itself read-only
+	effMutate               // may change tree, contents, modes, owners or modification times
 )
 
 func (e effect) String() string {
